@@ -1002,6 +1002,10 @@ Section Machine.
     (* ELFFile.get_dwarf_info() builds a NEW DWARFInfo over new copies of the section contents: nothing the
        DWARFInfo handed out earlier can see *)
     | RefetchDwarf => ret ADone
+    (* DWARFInfo.get_CU_at(off) -> _cached_CU_at_offset: the bisect search finds no entry for off (only offsets of
+       parsed units are ever inserted), _parse_CU_at_offset seeks to off, reads and raises; the insertions into
+       _cu_offsets_map / _cu_cache come AFTER the parse, so nothing but the cursor has changed *)
+    | CUAtFailing off e c => (if 0 <=? c then seek S_INFO c else ret tt) ;;; fail e
     end.
 
   Definition step (s : state) (o : op) : state * answer :=
